@@ -18,7 +18,7 @@ COMPONENTS_REAL = [
 ]
 COMPONENTS_STUB = [
     "event loop scheduling core + monotonic clock: sim.loop.SimLoop",
-    "wall clock: taskiq.cli.scheduler.run.datetime rebound to SimDateTime (now(tz)/now()/utcnow() = epoch + loop time; naive now() shifted by a per-run local-zone offset)",
+    "wall clock: taskiq.cli.scheduler.run.datetime rebound to SimDateTime (now(tz)/now()/utcnow() = epoch + loop time; naive now() shifted by the per-run host zone offset); the host zone itself is set per run (TZ + time.tzset(): UTC, Etc/GMT-3, Etc/GMT+7, Asia/Kathmandu, Asia/Tokyo, America/Phoenix) so that naive datetimes handled by the C library are interpreted coherently",
     "transport: RecBroker.kick (records, scripted latency / failure per schedule and occurrence)",
     "schedule sources: ScriptedSource (dynamic list, scripted listing latency / failures, removes a one-shot in post_send, optional cancelling pre_send, sync or async hooks)",
     "ids: deterministic id generator",
@@ -119,9 +119,10 @@ def simplifications(script: dict) -> Iterator[dict]:
             c = clone()
             del c["kicks"][k]
             yield c
-    if script["start"].get("local_off_min"):
+    if script["start"].get("tz", "UTC") != "UTC":
         c = clone()
         c["start"]["local_off_min"] = 0
+        c["start"]["tz"] = "UTC"
         yield c
     if script["horizon_us"] > 2 * MIN:
         c = clone()
